@@ -248,12 +248,12 @@ recorded in-use entries, the trailer dictionary, and ends where the dictionary e
 theorem sectionAt_table (pre tail : Bytes) (x : XrefMap) (size : Nat) (tr : Dict) (sz : Int)
     (hx : XrefMapOk x) (hs : size ≤ 4294967295)
     (htr : WFObj (.dict tr) ∧ height (.dict tr) ≤ MAX_NESTING ∧ NoRealD tr)
-    (hsz : Dict.get tr SIZE = some (.int sz)) (hprev : Dict.get tr PREV = none) :
+    (hsz : Dict.get tr SIZE = some (.int sz)) (pv : Option Nat) (hprev : prevOf tr = .ok pv) :
     sectionAt (pre ++ (writeXrefTable x size ++ (TRAILER_KW ++ (writeObj (.dict tr) ++ tail)))) pre.length
       = .ok { entries := tableEntriesOf x size, trailer := tr,
               secEnd := (pre ++ (writeXrefTable x size ++ (TRAILER_KW ++ (writeObj (.dict tr) ++ tail)))).length
                 - tail.length,
-              prev := none, size := sz, selfId := none } := by
+              prev := pv, size := sz, selfId := none } := by
   obtain ⟨t1, t2, t3⟩ := htr
   generalize htot : (pre ++ (writeXrefTable x size ++ (TRAILER_KW ++ (writeObj (.dict tr) ++ tail)))).length = total
   have hle : ¬ pre.length > total := by rw [← htot]; simp only [List.length_append]; omega
@@ -282,11 +282,10 @@ theorem sectionAt_table (pre tail : Bytes) (x : XrefMap) (size : Nat) (tr : Dict
   have hobj := obj_rt (.dict tr) _ 0 tail t1 (by omega) hfuel trivial
   simp only [norm, normD_noReal tr t3] at hobj
   have hk1 : kSize = SIZE := rfl
-  have hk2 : kPrev = PREV := rfl
   unfold sectionAt
   rw [htot]
   simp only [hle, if_false, hdrop, stripPrefix_append, tableSection, dropEol, hsub, List.nil_append, hcount, htrl, hsk,
-    hobj, hk1, hsz, prevOf, hk2, hprev, tableEntriesOf]
+    hobj, hk1, hsz, hprev, tableEntriesOf]
 
 /-! ### the tiling walk over the written objects -/
 
@@ -536,7 +535,7 @@ theorem strict_of_save_table (d : SDoc) (out : Bytes) (d' : SDoc)
     rw [e2]; exact lastXref_tail _ _ (by omega)
   -- R2
   have hsec := sectionAt_table (bodyOf [] d) tail (xmapOf [] d) (d.maxId + 1) d'.trailer _
-    (xmapOf_ok [] d hwf.gens) hmax htr2 hsz' hprev'
+    (xmapOf_ok [] d hwf.gens) hmax htr2 hsz' none (by simp [prevOf, show kPrev = PREV from rfl, hprev'])
   rw [← e1] at hsec
   -- R4
   have hsecEnd : out.length - tail.length = (bodyOf [] d ++ writeXrefTable (xmapOf [] d) (d.maxId + 1) ++ TRAILER_KW
